@@ -1,12 +1,14 @@
 (* C16 driver: one observed history per line
      H <id> <zsize> <msize> <f0,f1,...> <npids> | <label> <label> ...
    labels: S:<pid>:<F|C|M>  X:<pid>  E:<thread>:<Eff>[:a[:b]]
-   prints the model's final abstract store, thread results and GetZip counts,
-   or REJECT@<k> <label> when the model's step function cannot take the k-th label. *)
+   The acceptance loop, the settling of internal steps, the recovery run and the canonical
+   summary are all computed by the extracted Coq function c16_run; this file only parses and prints:
+     <store> | <results> | <gz> | skipped=.. complete=.. recover=.. sum=<summary as nested lists>
+   alternatives (nondeterministic internal events) are separated by " || ";
+   REJECT@<k> <label> when the model's step function cannot take the k-th label. *)
 open C16_model
 
-let rec nat_of_int n = let rec go acc k = if k <= 0 then acc else go (S acc) (k - 1) in go O n
-let rec int_of_nat = function O -> 0 | S n -> 1 + int_of_nat n
+let nat_of_int n = let rec go acc k = if k <= 0 then acc else go (S acc) (k - 1) in go O n
 let int_of_nat n = let rec go acc = function O -> acc | S m -> go (acc + 1) m in go 0 n
 
 let split_on c s = String.split_on_char c s |> List.filter (fun x -> x <> "")
@@ -38,15 +40,20 @@ let parse_label (s : string) : label * bool =
     (Eff (nat_of_int (int_of_string i), e), optional)
   | _ -> failwith ("bad label " ^ s)
 
-let pairs l = String.concat "," (List.map (fun (a, b) -> Printf.sprintf "%d:%d" (int_of_nat a) (int_of_nat b))
-  (List.sort compare (List.map (fun (a, b) -> (int_of_nat a, int_of_nat b)) l |> List.map (fun (a,b) -> (a,b)))
-   |> List.map (fun (a, b) -> (nat_of_int a, nat_of_int b))))
-let opt = function None -> "-" | Some n -> string_of_int (int_of_nat n)
+let rec pairs = function a :: b :: r -> Printf.sprintf "%d:%d" a b :: pairs r | _ -> []
+let opt = function [] -> "-" | n :: _ -> string_of_int n
 
-let show_store (s : store) =
-  Printf.sprintf "zip=%s ztmp=[%s] modf=%s mtmp=[%s] marker=%d dir=%s"
-    (opt s.zip) (pairs s.ztmp) (opt s.modf) (pairs s.mtmp) (if s.marker then 1 else 0)
-    (match s.dir with None -> "-" | Some l -> "[" ^ pairs l ^ "]")
+let show (sum : int list list) (skipped : int) : string =
+  match sum with
+  | [zip; ztmp; modf; mtmp; [marker]; dir; res; gz; [complete; recov]] ->
+    let d = (match dir with 0 :: _ -> "-" | _ :: l -> "[" ^ String.concat "," (pairs l) ^ "]" | [] -> "?") in
+    let r = List.map (function 0 -> "ok" | 1 -> "err" | 2 -> "notfound" | 3 -> "dead" | _ -> "live") res in
+    Printf.sprintf "zip=%s ztmp=[%s] modf=%s mtmp=[%s] marker=%d dir=%s | %s | %s | skipped=%d complete=%b recover=%s sum=[%s]"
+      (opt zip) (String.concat "," (pairs ztmp)) (opt modf) (String.concat "," (pairs mtmp)) marker d
+      (String.concat " " r) (String.concat " " (List.map string_of_int gz)) skipped (complete = 1)
+      (match recov with 0 -> "skip" | 1 -> "ok" | 2 -> "bad" | _ -> "stuck")
+      (String.concat "," (List.map (fun l -> "[" ^ String.concat "," (List.map string_of_int l) ^ "]") sum))
+  | _ -> "DRIVER-ERROR malformed summary"
 
 let () =
   try
@@ -60,33 +67,10 @@ let () =
         let fs = List.map (fun x -> nat_of_int (int_of_string x)) (split_on ',' (List.nth head 4)) in
         let npids = int_of_string (List.nth head 5) in
         let c = c16_cfg (nat_of_int z) (nat_of_int m) fs in
-        let ws = ref [c16_world0] and k = ref 0 and rej = ref None and skipped = ref 0 in
-        let rec take n = function [] -> [] | x :: r -> if n = 0 then [] else x :: take (n - 1) r in
-        List.iter (fun s ->
-          if !rej = None then begin
-            let (l, optional) = parse_label s in
-            (match take 8 (List.concat_map (fun w -> c16_accept1 c w l) !ws) with
-             | [] -> if optional then incr skipped else rej := Some (!k, s)
-             | ws' -> ws := ws');
-            incr k
-          end) labels;
-        (match !rej with
-         | Some (k, s) -> Printf.printf "REJECT@%d %s\n" k s
-         | None ->
-           let outs = List.map (fun w0 ->
-             let w = ref w0 in
-             let n = int_of_nat (c16_nthreads !w) in
-             for i = 0 to n - 1 do w := c16_settle c (S (S (S O))) !w (nat_of_int i) done;
-             let res = List.init n (fun i -> match int_of_nat (c16_result !w (nat_of_int i)) with
-               | 0 -> "ok" | 1 -> "err" | 2 -> "notfound" | 3 -> "dead" | _ -> "live") in
-             let gz = List.init npids (fun p -> string_of_int (int_of_nat (c16_gz !w (nat_of_int p)))) in
-             let quiet = List.for_all (fun r -> r <> "live") res in
-             let rec_ok = if not quiet then "skip" else
-               (match c16_recover c !w (nat_of_int (npids + 1)) with
-                | Some w' -> if c16_completeb c (c16_store w') && int_of_nat (c16_result w' (nat_of_int n)) = 0 then "ok" else "bad"
-                | None -> "stuck") in
-             Printf.sprintf "%s | %s | %s | skipped=%d complete=%b recover=%s" (show_store (c16_store !w))
-               (String.concat " " res) (String.concat " " gz) !skipped (c16_completeb c (c16_store !w)) rec_ok) !ws in
+        (match c16_run c (List.map parse_label labels) (nat_of_int npids) with
+         | Inr k -> let k = int_of_nat k in Printf.printf "REJECT@%d %s\n" k (List.nth labels k)
+         | Inl (sums, skipped) ->
+           let outs = List.map (fun s -> show (List.map (List.map int_of_nat) s) (int_of_nat skipped)) sums in
            print_endline (String.concat " || " (List.sort_uniq compare outs)))
       with e -> Printf.printf "DRIVER-ERROR %s\n" (Printexc.to_string e));
       flush stdout
